@@ -158,9 +158,15 @@ static int ends_with(const char *s, const char *suffix) {
 
 static int is_src_path(const char *p) { return p && ends_with(p, ".capy"); }
 
+/* the object file, or a file that is going to become it (`out/main.o.tmp`, renamed afterwards):
+ * how the compiler gets the bytes into `out/<name>.o` is its own business, the faults have to
+ * reach the file that receives them */
 static int is_obj_path(const char *p) {
-    if (!p || !ends_with(p, ".o")) return 0;
-    return strncmp(p, "out/", 4) == 0 || strstr(p, "/out/") != NULL;
+    if (!p) return 0;
+    if (!(strncmp(p, "out/", 4) == 0 || strstr(p, "/out/") != NULL)) return 0;
+    const char *base = strrchr(p, '/');
+    base = base ? base + 1 : p;
+    return strstr(base, ".o") != NULL;
 }
 
 static int rule_hits(struct rule *rules, int n, long ordinal, const char *path) {
